@@ -617,6 +617,10 @@ _add("C12", rule="an on-link host whose address ends in 255 (a second on-link ne
 _add("C13", rule="requests in 17-40 fragments; a complete fragmented request that reuses the IP identification of a datagram abandoned more than 30 s earlier; "
      "one run in five on a link that declares checksum offload (which covers TCP and UDP, not ICMP)",
      probes=["requests_in_seventeen_or_more_fragments", "identification_of_an_abandoned_datagram_reused", "links_declaring_checksum_offload"])
+_add("C02", rule="in half of the runs a writer that found the send buffer full (would-block or a partial write) writes again only after the stack has signalled "
+     "EventOut on its wait queue - it sleeps, it does not poll", probes=["writes_waiting_for_writability", "writers_woken_by_writability"])
+_add("C03", rule="cookie mode: final ACKs 1..3 above the cookie (known finding F27, reported only when the run shows nothing else)",
+     probes=["known_finding_F27"])
 _add("C20", rule="upgrade requests whose key is the base64 form of a 6-, 20-, 32- or 52-byte nonce", probes=["ws_keys_of_unusual_length"])
 
 
